@@ -41,8 +41,14 @@ def veq(a, b, tol=TOL):
         return False
     if a.size == 0:
         return True
-    if np.isnan(a).any() or np.isnan(b).any():
-        return False
+    na, nb = np.isnan(a), np.isnan(b)
+    if na.any() or nb.any():
+        # NaN only matches NaN at the same position (e.g. sqrt of a negative number in a user-supplied imap)
+        if not np.array_equal(na, nb):
+            return False
+        a, b = a[~na], b[~nb]
+        if a.size == 0:
+            return True
     return bool(np.all(np.abs(a - b) <= tol * (1.0 + max(np.abs(a).max(), np.abs(b).max()))))
 
 
@@ -705,6 +711,12 @@ def run(ctx):
     # -------------------------------------------------------------------- user geometries with `gradient`, wrapped in MappedGeometry
     wrapped_user_geometries(ctx, cuqi, rng, lines, pending, verdicts, 160 if thorough else 24)
 
+    # -------------------------------------------------------------------- model(distribution) for every model kind x distribution geometry
+    rename_stream(ctx, cuqi, rng, lines, pending, verdicts, 160 if thorough else 40)
+
+    # -------------------------------------------------------------------- PDE option sweep: retained outputs (python-only oracle)
+    pde_variants(ctx, cuqi, rng, verdicts, 120 if thorough else 24)
+
     # -------------------------------------------------------------------- dtypes, in-place updates, aliasing, caches: every model kind
     robustness(ctx, cuqi, rng, lines, pending, verdicts, 320 if thorough else 48)
 
@@ -754,6 +766,209 @@ def run(ctx):
                 if f["case"].get("call") == desc.get("call"):
                     ctx.fail(key, f["case"], f["demanded"], f["got"], f["what"] + " [found while searching near a model/implementation disagreement]")
                     break
+
+
+def rename_stream(ctx, cuqi, rng, lines, pending, verdicts, nconf):
+    """B = A(dist) for every model kind and distributions carrying a default / Continuous1D / mapped (exp) / step / KL
+    geometry of matching dimension; A on integer-dimension (default) and explicit geometries.  Demanded: B has A's
+    geometries (same objects) and every attribute but `_non_default_args`; B.forward / gradient / adjoint on ndarray,
+    CUQIarray (both flags) and Samples equal A's on the same numbers; `Gaussian(B, 1)(y=x).mean == A(x)`; A untouched."""
+    from cuqi.array import CUQIarray
+    from cuqi.samples import Samples
+    G = cuqi.geometry
+    DG = ["default", "cont1d", "mapped-exp", "step", "kl", "discrete"]
+    cov = ctx.extra_cov.setdefault("rename_configs", {})
+    for ri in range(nconf):
+        mk = MODEL_KINDS[ri % len(MODEL_KINDS)]
+        dgk = DG[(ri // 2) % len(DG)] if ri >= len(DG) else DG[ri]
+        n = int(rng.randint(2, 4))
+        dk = ["default1d", "default1d", "cont1d", "map-sq-1-1d"][ri % 4]      # the model's own domain geometry (mostly the default one)
+        D = make_geometries(cuqi, rng, n, dk)
+        nDf = int(np.prod(D.fun_shape))
+        R = make_geometries(cuqi, rng, nDf if mk.startswith("heat") else int(rng.randint(2, 4)), ["default1d", "cont1d"][ri % 2])
+        try:
+            M = build_model(cuqi, rng, mk, D, R, D.obj, R.obj)
+        except Exception as e:
+            ctx.note(f"rename: constructor refused {mk}: {type(e).__name__}")
+            continue
+        A = M.obj
+        Dg, Rg = A.domain_geometry, A.range_geometry
+        if dgk == "default":
+            gd = None
+        elif dgk == "cont1d":
+            gd = G.Continuous1D(n)
+        elif dgk == "discrete":
+            gd = G.Discrete(n)
+        elif dgk == "mapped-exp":
+            gd = G.MappedGeometry(G.Continuous1D(n), map=np.exp, imap=np.log)
+        elif dgk == "step":
+            gd = G.StepExpansion(np.arange(n + 2, dtype=float), n_steps=n)
+        else:
+            gd = G.KLExpansion(np.arange(n + 2, dtype=float), num_modes=n)
+        name = str(rng.choice(["y", "z", "alpha"]))
+        with quiet():
+            dist = cuqi.distribution.Gaussian(np.zeros(n), 1.0, name=name) if gd is None else cuqi.distribution.Gaussian(np.zeros(n), 1.0, geometry=gd, name=name)
+        conf = {"rename_stream": True, "model": mk, "domain": D.label, "range": R.label, "dist_geometry": dgk, "n": n, "seed_index": 400000 + ri, "name": name}
+        cov[f"{mk.split('-')[0]}|{dk}|{dgk}"] = cov.get(f"{mk.split('-')[0]}|{dk}|{dgk}", 0) + 1
+        before = dict(vars(A))
+        st, B = call(lambda: A.forward(dist))
+        ctx.case("rename-stream", conf)
+        if st != "ok" or not isinstance(B, cuqi.model.Model):
+            ctx.fail("rename:refused", conf, "a renamed model", str(B)[:100], "forward(distribution) of matching dimension did not return a model")
+            continue
+        same = set(vars(B)) == set(before) and all(vars(B)[k] is before[k] for k in before if k != "_non_default_args")
+        untouched = set(vars(A)) == set(before) and all(vars(A)[k] is before[k] for k in before)
+        if not (B.domain_geometry is Dg and B.range_geometry is Rg):
+            ctx.fail("rename:geometry", conf, "the renamed model keeps the model's own domain and range geometry objects",
+                     {"domain": repr(B.domain_geometry), "range": repr(B.range_geometry)}, "applying a model to a distribution changed its geometry")
+        if not (same and untouched and vars(B)["_non_default_args"] == [name]):
+            ctx.fail("rename:attributes", conf, "all attributes identical except _non_default_args", {"same": same, "untouched": untouched},
+                     "applying a model to a distribution changed more than the input name")
+
+        def eq_eval(a_, b_):
+            try:
+                with quiet():
+                    return "T" if bool(a_ == b_) else "F"
+            except IndexError:
+                return "I"
+            except KeyError:
+                return "K"
+        eqr = eq_eval(Dg, Rg) + eq_eval(Rg, Dg)
+        loose = eqr[0] == "T" and type(Dg) is not type(Rg)
+        Dtok, Rtok = D.token(0), R.token(1)
+        canonA = Canon(cuqi, [(Dg, 0), (Rg, 1)])
+        exact = D.exact and R.exact and M.exact
+        tol = 1e-12 if exact else TOL
+        lo = 0 if (D.nonneg or M.nonneg) else -3
+        x = rng.randint(lo, 4, size=n).astype(float)
+        Xs = rng.randint(lo, 4, size=(n, 2)).astype(float)
+        d = rng.randint(-3, 4, size=R.par_dim).astype(float)
+        with quiet():
+            fx = np.asarray(Dg.par2fun(x), dtype=float)
+        forms = [("nd", lambda: x.copy(), True, f"nd:{qv(x)}"),
+                 ("nd-fun", lambda: fx.copy(), False, f"nd:{qv(fx.ravel())}"),
+                 ("samples", lambda: Samples(Xs.copy(), geometry=Dg), True, f"smp:1:0:{qm(Xs.T)}")]
+        if not loose:
+            forms += [("arr-par", lambda: CUQIarray(x.copy(), is_par=True, geometry=Dg), True, f"arr:1:0:{qv(x)}"),
+                      ("arr-fun", lambda: CUQIarray(fx.copy(), is_par=False, geometry=Dg), True, f"arr:0:0:{qv(fx.ravel())}")]
+        for lab, mkin, ip, tok in forms:
+            ra = call(lambda: A.forward(mkin(), is_par=ip))
+            rb = call(lambda: B.forward(**{name: mkin()}, is_par=ip))
+            ca = canonA(ra[1]) if ra[0] == "ok" else ("err", ra[1])
+            cb = canonA(rb[1]) if rb[0] == "ok" else ("err", rb[1])
+            desc = {**conf, "call": "rename-forward", "input": lab, "x": x.tolist()}
+            ctx.case(f"rename-stream:forward:{lab}", desc)
+            lines.append(f"distfwd {M.token} {Dtok} {Rtok} {eqr} {n} {n} {name} {tok} {tok_bool(ip)}")
+            pending.append((len(lines) - 1, f"tie:rename:forward:{lab}", desc, cb, tol))
+            if not same_canon(ca, cb, 0.0 if exact else tol):
+                ctx.fail(f"rename:forward:{lab}", desc, short(ca), short(cb), "the renamed model computes something else than the original on the same numbers")
+            else:
+                verdicts["rename:forward-same"] = verdicts.get("rename:forward-same", 0) + 1
+            if lab in ("nd", "arr-par"):
+                ga = call(lambda: A.gradient(d.copy(), mkin()))
+                gb = call(lambda: B.gradient(d.copy(), mkin()))
+                cga = canonA(ga[1]) if ga[0] == "ok" else ("err", ga[1])
+                cgb = canonA(gb[1]) if gb[0] == "ok" else ("err", gb[1])
+                if not same_canon(cga, cgb, 0.0 if exact else tol):
+                    ctx.fail(f"rename:gradient:{lab}", {**desc, "call": "rename-gradient"}, short(cga), short(cgb), "the renamed model's gradient differs from the original's")
+        if isinstance(A, cuqi.model.LinearModel):
+            for lab, mky in (("nd", lambda: d.copy()), ("samples", lambda: Samples(np.column_stack([d, 2 * d]), geometry=Rg))):
+                aa, ab = call(lambda: A.adjoint(mky())), call(lambda: B.adjoint(mky()))
+                caa = canonA(aa[1]) if aa[0] == "ok" else ("err", aa[1])
+                cab = canonA(ab[1]) if ab[0] == "ok" else ("err", ab[1])
+                if not same_canon(caa, cab, 0.0 if exact else tol):
+                    ctx.fail(f"rename:adjoint:{lab}", {**conf, "call": "rename-adjoint"}, short(caa), short(cab), "the renamed model's adjoint differs from the original's")
+        # the renamed model as the mean of a distribution, conditioned on the new name
+        zc = call(lambda: np.array(cuqi.distribution.Gaussian(B, 1.0, name="obs")(**{name: x.copy()}).mean, dtype=float))
+        ra = call(lambda: np.array(A.forward(x.copy()), dtype=float))
+        ctx.case("rename-stream:as-mean", conf)
+        if zc[0] == "ok" and ra[0] == "ok":
+            if not veq(zc[1], ra[1], 0.0 if exact else tol):
+                ctx.fail("rename:as-mean", {**conf, "call": "rename-as-mean", "x": x.tolist()}, ra[1].tolist(), zc[1].tolist(), "Gaussian(A(dist), 1)(name=x).mean is not A(x)")
+        elif zc[0] != ra[0]:
+            ctx.note(f"rename as-mean: {zc[0]} vs {ra[0]} for {mk}/{dgk}: {str(zc[1])[:60]}")
+
+
+def pde_variants(ctx, cuqi, rng, verdicts, nconf):
+    """Option sweep of the PDE classes (python-only oracle; the interpolating observations are not in the Lean model):
+    steady / time-dependent (forward, backward Euler), observation grid equal / different, time_obs 'final' / 'all' / vector,
+    with / without observation_map.  One PDEModel is evaluated on several inputs and a Samples object; every returned
+    array is retained untouched and, at the end, must still be byte-identical, equal the output of a FRESH model object on
+    the same input, equal the Samples column, and share memory with no other output, no input and no solver buffer."""
+    from cuqi.pde import SteadyStateLinearPDE, TimeDependentLinearPDE
+    from cuqi.samples import Samples
+    G = cuqi.geometry
+    cov = ctx.extra_cov.setdefault("pde_variants", {})
+    for vi in range(nconf):
+        n = int(rng.randint(4, 7))
+        grid = np.linspace(0.0, 1.0, n)
+        steady = vi % 3 == 2
+        grids = "equal" if (vi // 3) % 2 == 0 else "different"
+        omap = None if (vi // 6) % 2 == 0 else (lambda u: 2.0 * u + u ** 2)
+        grid_obs = None if grids == "equal" else np.linspace(0.1, 0.9, n - 1)
+        Dm = (-2 * np.eye(n) + np.eye(n, k=1) + np.eye(n, k=-1))
+        src = rng.randint(-1, 2, size=n).astype(float)
+        if steady:
+            A0 = 4 * np.eye(n) - np.eye(n, k=1) - np.eye(n, k=-1)
+            tobs = "n/a"; method = "steady"
+            def make():
+                pde = SteadyStateLinearPDE(lambda x: (A0 + np.diag(np.abs(np.asarray(x, dtype=float))), src + 1.0), grid_sol=grid, grid_obs=grid_obs, observation_map=omap)
+                nout = n if grid_obs is None else len(grid_obs)
+                return cuqi.model.PDEModel(pde, G.Continuous1D(nout), G.Continuous1D(n))
+        else:
+            steps = 5
+            ts = np.arange(steps + 1) * 0.0625
+            tobs = ["final", "all", "vector"][vi % 3 if vi % 3 < 2 else 0] if grids == "equal" else ["final", "vector", "all"][(vi // 2) % 3]
+            method = "forward_euler" if vi % 2 == 0 else "backward_euler"
+            tvals = {"final": "final", "all": "all", "vector": ts[[2, 4]] + 0.01}[tobs]
+            nt = {"final": 1, "all": len(ts), "vector": 2}[tobs]
+            def make():
+                pde = TimeDependentLinearPDE(lambda x, t: (Dm, src, np.asarray(x, dtype=float)), ts, time_obs=tvals, method=method,
+                                             grid_sol=grid, grid_obs=grid_obs, observation_map=omap)
+                nout = n if grid_obs is None else len(grid_obs)
+                rg = G.Continuous1D(nout) if nt == 1 else G.Continuous2D((nout, nt))
+                return cuqi.model.PDEModel(pde, rg, G.Continuous1D(n))
+        conf = {"pde_variant": True, "class": "steady" if steady else "time-dependent", "method": method, "grids": grids, "time_obs": tobs,
+                "observation_map": omap is not None, "n": n, "seed_index": 500000 + vi}
+        cov[f"{conf['class']}|{method}|{grids}|{tobs}|{'map' if omap else 'nomap'}"] = cov.get(f"{conf['class']}|{method}|{grids}|{tobs}|{'map' if omap else 'nomap'}", 0) + 1
+        ctx.case("pde-variant", conf)
+        try:
+            with quiet():
+                model = make()
+        except Exception as e:
+            ctx.note(f"pde-variant constructor refused {conf}: {type(e).__name__}: {str(e)[:60]}")
+            continue
+        xs = [rng.randint(0, 4, size=n).astype(float) for _ in range(3)]
+        kept = []
+        for i, xv in enumerate(xs):
+            st, val = call(lambda: model.forward(xv))
+            kept.append((f"forward-{i}", val if st == "ok" else None, np.asarray(val).tobytes() if st == "ok" else None, xv))
+        Xmat = np.column_stack(xs)
+        st, sv = call(lambda: model.forward(Samples(Xmat, geometry=model.domain_geometry)))
+        st2, again = call(lambda: model.forward(xs[0]))
+        if any(k[1] is None for k in kept) or st != "ok":
+            ctx.note(f"pde-variant raised {conf}: {[type(k[1]).__name__ for k in kept]} {str(sv)[:80]}")
+            continue
+        key = f"pde-variant:{conf['class']}:{grids}:{tobs}:{'map' if omap else 'nomap'}"
+        for i, (lab, val, snap, xv) in enumerate(kept):
+            dsc = {**conf, "call": "pde-variant", "output_of": lab, "x": xv.tolist()}
+            if np.asarray(val).tobytes() != snap:
+                ctx.fail(key + ":retained-output-overwritten", dsc, "the array returned earlier keeps its value", np.asarray(val, dtype=float).ravel().tolist()[:8],
+                         "an output returned earlier was overwritten by a later evaluation of the same model (view into a reused solution buffer)")
+                verdicts["retained:overwritten"] = verdicts.get("retained:overwritten", 0) + 1
+            with quiet():
+                fresh = np.asarray(make().forward(xv.copy()), dtype=float)
+            if not veq(np.asarray(val, dtype=float), fresh, 1e-12):
+                ctx.fail(key + ":differs-from-fresh-model", dsc, fresh.ravel().tolist()[:8], np.asarray(val, dtype=float).ravel().tolist()[:8],
+                         "the retained output is not what a fresh model object returns for the same input")
+            if not veq(np.asarray(sv.samples, dtype=float)[:, i], fresh, 1e-12):
+                ctx.fail(key + ":samples-column", dsc, fresh.ravel().tolist()[:8], np.asarray(sv.samples, dtype=float)[:, i].tolist()[:8], "Samples column differs from the single evaluation")
+            for j in range(i):
+                if np.shares_memory(np.asarray(val), np.asarray(kept[j][1])):
+                    ctx.fail(key + ":outputs-share-memory", dsc, "distinct memory", "shared", "outputs of two evaluations share memory")
+            if np.shares_memory(np.asarray(val), xv):
+                ctx.fail(key + ":aliases-input", dsc, "no aliasing", "aliases input")
+        verdicts["pde-variant:checked"] = verdicts.get("pde-variant:checked", 0) + 1
 
 
 def robustness(ctx, cuqi, rng, lines, pending, verdicts, nconf):
@@ -878,6 +1093,60 @@ def robustness(ctx, cuqi, rng, lines, pending, verdicts, nconf):
         w_arr = lambda p: ("arr", True, 1, ref_of(p))
         w_smp = lambda P: ("smp", 1, True, np.column_stack([ref_of(P[:, j]) for j in range(P.shape[1])]))
         arr_ok = not loose      # CUQIarray inputs hit the loose-equality finding otherwise (main stream)
+        # ---- retained outputs: every array ever returned keeps its value and shares memory with nothing else
+        inputs_r = [xa.copy(), xb.copy(), xc.copy(), Xs.copy(), d.copy()]
+        calls_r = [("forward-nd-1", lambda: model.forward(inputs_r[0]), w_nd(xa), None),
+                   ("forward-nd-2", lambda: model.forward(inputs_r[1]), w_nd(xb), None),
+                   ("forward-nd-3", lambda: model.forward(inputs_r[2]), w_nd(xc), None),
+                   ("forward-samples", lambda: model.forward(Samples(inputs_r[3], geometry=Dg)), w_smp(Xs), None),
+                   ("forward-nd-1-again", lambda: model.forward(inputs_r[0]), w_nd(xa), None)]
+        if arr_ok:
+            calls_r.insert(3, ("forward-arr-2", lambda: model.forward(CUQIarray(inputs_r[1], geometry=Dg)), w_arr(xb), None))
+        if formable:
+            calls_r += [("gradient-1", lambda: model.gradient(inputs_r[4], inputs_r[0]), ("nd", ref_grad(xa)), 1e-5),
+                        ("gradient-2", lambda: model.gradient(inputs_r[4], inputs_r[1]), ("nd", ref_grad(xb)), 1e-5)]
+        if mk.split("-")[0] in ("linmat", "linfun") and D.family == "id" and R.family == "id":
+            y1, y2 = rng.randint(-3, 4, size=R.par_dim).astype(float), rng.randint(-3, 4, size=R.par_dim).astype(float)
+            inputs_r += [y1, y2]
+            calls_r += [("adjoint-1", lambda: model.adjoint(y1), None, None), ("adjoint-2", lambda: model.adjoint(y2), None, None),
+                        ("adjoint-1-again", lambda: model.adjoint(y1), None, None)]
+        kept = []
+        for lab, th, want, gtol in calls_r:
+            st, val = call(th)
+            if st != "ok":
+                kept.append((lab, None, None, ("err", val), want, gtol)); continue
+            raw = val.samples if isinstance(val, Samples) else val
+            kept.append((lab, raw, np.asarray(raw).tobytes(), canon(val), want, gtol))
+        descr = {**conf, "call": "robustness", "probe": "retained-outputs", "calls": [k[0] for k in kept]}
+        ctx.case("robust:retained-outputs", descr)
+        for i, (lab, raw, snap, c, want, gtol) in enumerate(kept):
+            dsc = {**descr, "output_of": lab}
+            if raw is None:
+                if want is not None:
+                    ctx.fail(f"robust:retained:{lab}:raised", dsc, short(want), c[1], "call raised")
+                continue
+            if np.asarray(raw).tobytes() != snap:
+                ctx.fail(f"robust:retained:{lab}:overwritten", dsc, "the array returned earlier keeps its value", "changed by a later call",
+                         "an output returned earlier was overwritten by a later call (it is a view of internal state)")
+                verdicts["retained:overwritten"] = verdicts.get("retained:overwritten", 0) + 1
+            if want is not None:
+                cur = ("smp", c[1], c[2], np.array(raw, dtype=float)) if c[0] == "smp" else (("nd", np.array(raw, dtype=float).ravel()) if c[0] == "nd" else ("arr", c[1], c[2], np.array(raw, dtype=float).ravel()))
+                okv = same_canon(cur, want, tol) if gtol is None else veq(cur[1], want[1], gtol)
+                if not okv:
+                    ctx.fail(f"robust:retained:{lab}:value-at-end", dsc, short(want), short(cur), "the retained output no longer is the output of its input")
+            for j in range(i):
+                if kept[j][1] is not None and np.shares_memory(np.asarray(raw), np.asarray(kept[j][1])):
+                    ctx.fail(f"robust:retained:{lab}:shares-memory", {**dsc, "with": kept[j][0]}, "distinct calls return distinct memory", "shared",
+                             "two outputs of different calls share memory")
+            for inp in inputs_r:
+                if np.shares_memory(np.asarray(raw), inp):
+                    ctx.fail(f"robust:retained:{lab}:aliases-input", dsc, "output does not alias the caller's input", "aliases", "an output is a view of an input array")
+        # the same retained outputs against a second look: repeated calls agree with their first results
+        for a_, b_ in (("forward-nd-1", "forward-nd-1-again"), ("adjoint-1", "adjoint-1-again")):
+            ka = [k for k in kept if k[0] == a_]; kb = [k for k in kept if k[0] == b_]
+            if ka and kb and ka[0][1] is not None and kb[0][1] is not None and not veq(np.asarray(ka[0][1]), np.asarray(kb[0][1]), tol):
+                ctx.fail(f"robust:retained:{a_}:differs-from-repeat", descr, np.asarray(kb[0][1]).tolist(), np.asarray(ka[0][1]).tolist(), "the retained first output differs from the repeated call")
+        verdicts["retained:checked"] = verdicts.get("retained:checked", 0) + len(kept)
         # ---- in-place updates of the same argument array, fresh equal arrays, other representations
         x = xa.copy()
         do("nd:first", lambda: model.forward(x), fl(f"nd:{qv(x)}"), w_nd(xa), [x])
